@@ -27,6 +27,18 @@ func (e *Exec) modOfBlocks(blocks map[*ssa.BasicBlock]bool, depth int, ms *modSe
 }
 
 func (e *Exec) modOfInstr(in ssa.Instruction, depth int, ms *modSet) {
+	if depth == 0 && e.fc != nil {
+		// ghost assignments attached to this site by the contract
+		if cs, ok := e.callOrd[in]; ok {
+			for _, sec := range e.fc.Calls {
+				if sec.Callee == cs.name && sec.N == cs.k {
+					for _, g := range sec.Set {
+						ms.ghosts[g.Name] = true
+					}
+				}
+			}
+		}
+	}
 	switch x := in.(type) {
 	case *ssa.Store:
 		switch a := x.Addr.(type) {
@@ -92,6 +104,13 @@ func (e *Exec) modOfInstr(in ssa.Instruction, depth int, ms *modSet) {
 		}
 		callee := c.StaticCallee()
 		if callee != nil && !inModule(callee) {
+			if xf := e.P.CS.Externs[calleeFullName(callee)]; xf != nil {
+				ms.alloc = true
+				for _, m := range xf.Modifies {
+					e.modOfClause(xf, m, ms)
+				}
+				return
+			}
 			if stdlibEffect(callee, ms) {
 				return
 			}
@@ -113,8 +132,31 @@ func (e *Exec) modOfInstr(in ssa.Instruction, depth int, ms *modSet) {
 			}
 			return
 		}
+		if c.IsInvoke() {
+			// a method of an interface declared outside the module without a contract:
+			// same treatment as at execution time (result unconstrained, no heap effect)
+			if n, ok := types.Unalias(c.Value.Type()).(*types.Named); ok && n.Obj().Pkg() != nil && !strings.HasPrefix(n.Obj().Pkg().Path(), modPath) {
+				return
+			}
+		}
 		cbMode := ""
 		if callee == nil && !c.IsInvoke() && e.fc != nil {
+			// a function value loaded from a field declared as a callback
+			if u, ok := c.Value.(*ssa.UnOp); ok {
+				if fa, ok := u.X.(*ssa.FieldAddr); ok {
+					if stt, T := structOf(fa.X.Type()); stt != nil {
+						e.P.initFieldDecls()
+						if fd := e.P.fdCache[fieldArrName(T, stt.Field(fa.Field).Name())+"/callback"]; fd != nil {
+							cbMode = "pure"
+							if len(fd.Args) > 0 {
+								cbMode = fd.Args[0]
+							}
+						}
+					}
+				}
+			}
+		}
+		if cbMode == "" && callee == nil && !c.IsInvoke() && e.fc != nil {
 			cbMode = e.fc.DefaultCallback
 			if p, ok := c.Value.(*ssa.Parameter); ok {
 				for _, cb := range e.fc.Callbacks {
@@ -232,7 +274,17 @@ func (e *Exec) cutLoop(fr *Frame, li *loopInfo, st *State) *State {
 	// havoc
 	ms := &modSet{arrs: map[string]bool{}, ghosts: map[string]bool{}, region: li.blocks}
 	e.modOfBlocks(li.blocks, 0, ms)
+	// loop frame: `modifies gf(x)` in a loop section says that, of the ghost
+	// attribute gf, only the one at x changes inside the loop (checked on every
+	// back edge); everything else of that array survives the cut.
+	located := map[string][]string{}
 	for _, m := range spec.Modifies {
+		if name, argSrc, ok := ghostFieldLoc(e.P, strings.TrimSpace(m)); ok && argSrc != "*" {
+			if ex, err := parseExprSafe(argSrc); err == nil {
+				located["GF_"+name] = append(located["GF_"+name], e.evalExpr(env, ex).t())
+				continue
+			}
+		}
 		e.modOfClause(e.fc, m, ms)
 	}
 	st = st.clone()
@@ -242,6 +294,16 @@ func (e *Exec) cutLoop(fr *Frame, li *loopInfo, st *State) *State {
 		e.note("%s: loop %d contains an uncontracted call: whole heap havocked", e.name, li.n)
 	} else {
 		for _, a := range sortedKeys(ms.arrs) {
+			if locs, ok := located[a]; ok {
+				if srt, ok := e.arrSort[a]; ok {
+					t := e.arrTerm(st, a, srt)
+					for _, l := range locs {
+						t = sx("store", t, l, e.S.Fresh("loopmod_"+a, srt))
+					}
+					st.heap[a] = e.S.Define(a, "(Array Int "+srt+")", t)
+					continue
+				}
+			}
 			e.havocArr(st, a)
 		}
 		for g := range ms.ghosts {
@@ -254,12 +316,26 @@ func (e *Exec) cutLoop(fr *Frame, li *loopInfo, st *State) *State {
 		}
 	}
 	_ = pre
+	if len(located) > 0 {
+		if e.loopFrames == nil {
+			e.loopFrames = map[int]map[string]loopFrame{}
+		}
+		e.loopFrames[li.n] = map[string]loopFrame{}
+		for a, locs := range located {
+			if srt, ok := e.arrSort[a]; ok {
+				e.loopFrames[li.n][a] = loopFrame{e.arrTerm(st, a, srt), locs}
+			}
+		}
+	}
 	for _, in := range li.header.Instrs {
 		phi, ok := in.(*ssa.Phi)
 		if !ok {
 			break
 		}
 		v := e.freshVal(fmt.Sprintf("%s_%s_L%d", phi.Name(), sanitize(phi.Comment), li.n), phi.Type(), kindOf(phi.Type()))
+		if v.K == KBytes {
+			v.Ident = fmt.Sprintf("L%d:%s", li.n, phi.Name())
+		}
 		e.typeFacts(v, phi.Type(), st)
 		fr.vals[phi] = v
 	}
@@ -293,6 +369,17 @@ func (e *Exec) checkBackEdge(fr *Frame, li *loopInfo, from *ssa.BasicBlock, st *
 	}
 	st = st.clone()
 	st.reach = e.S.Define("reach", "Bool", sAnd(st.reach, edgeCond(fr, e, from, li.header, st)))
+	e.checkCarried(fr, st, li, from, backSuffix(li, from))
+	for _, a := range sortedKeys(e.loopFrames[li.n]) {
+		lf := e.loopFrames[li.n][a]
+		cur := e.arrTerm(st, a, e.arrSort[a])
+		want := lf.header
+		for _, l := range lf.locs {
+			want = sx("store", want, l, sx("select", cur, l))
+		}
+		e.oblige(st, fmt.Sprintf("loop%d:frame:%s%s", li.n, a, backSuffix(li, from)), "frame", e.fc.frameTags(), sEq(cur, want),
+			"inside the loop "+a+" changes only at the locations the loop's modifies clause names", from.Instrs[len(from.Instrs)-1].Pos())
+	}
 	env := e.loopEnv(fr, li, st, from)
 	for i, inv := range spec.Invariants {
 		g := e.evalBool(env, inv.Expr)
